@@ -113,7 +113,7 @@ Section KwpThms.
   Lemma rfc_pass_shape n j : forall rs i A, length A = 8%nat -> blocks_ok rs ->
     length (fst (rfc_pass E n j i A rs)) = 8%nat /\ blocks_ok (snd (rfc_pass E n j i A rs))
     /\ length (snd (rfc_pass E n j i A rs)) = length rs.
-  Proof.
+  Proof using E_len. clear D_len DE ED; try clear D.
     induction rs as [|r rs IH]; intros i A HA Hrs.
     - cbn. repeat split; auto; constructor.
     - inversion Hrs; subst. cbn [rfc_pass].
@@ -317,7 +317,7 @@ Section KwpThms.
     N.of_nat (n * j + i + length rs) <= 2 ^ 32 ->
     wrap_pass E A (N.of_nat (n * j + i - 1)) rs =
     (fst (rfc_pass E n j i A rs), N.of_nat (n * j + i - 1 + length rs), snd (rfc_pass E n j i A rs)).
-  Proof.
+  Proof using . clear E_len D_len DE ED; try clear D.
     induction rs as [|r rs IH]; intros i A Hi Hb.
     - cbn. rewrite Nat.add_0_r. reflexivity.
     - cbn [wrap_pass rfc_pass]. cbn [length] in Hb.
@@ -333,7 +333,7 @@ Section KwpThms.
   Lemma wrap_rounds_rfc n : forall k j A rs, length rs = n -> length A = 8%nat -> blocks_ok rs ->
     N.of_nat (n * (j + k) + 1) <= 2 ^ 32 ->
     wrap_rounds E k A (N.of_nat (n * j)) rs = rfc_rounds E k n j A rs.
-  Proof.
+  Proof using E_len. clear D_len DE ED; try clear D.
     induction k as [|k IH]; intros j A rs Hn HA Hrs Hb; [reflexivity|].
     cbn [wrap_rounds rfc_rounds].
     replace (N.of_nat (n * j)) with (N.of_nat (n * j + 1 - 1)) by (f_equal; lia).
@@ -347,7 +347,7 @@ Section KwpThms.
   Theorem W_impl_rfc3394 A rs : length A = 8%nat -> blocks_ok rs ->
     6 * N.of_nat (length rs) < 2 ^ 32 ->
     W_impl E A rs = W_rfc3394 E A rs.
-  Proof.
+  Proof using E_len. clear D_len DE ED; try clear D.
     intros HA Hrs Hb. unfold W_impl, W_rfc3394, roundCount.
     replace 0 with (N.of_nat (length rs * 0)) at 1 by lia.
     rewrite (wrap_rounds_rfc (length rs)) by (auto; lia). reflexivity.
@@ -414,14 +414,14 @@ Section KwpThms.
 
   (* ---------- Wrap = RFC 5649 ---------- *)
   Lemma aiv_length n : length (aiv n) = 8%nat.
-  Proof. unfold aiv. rewrite app_length, !be_bytes_length. reflexivity. Qed.
+  Proof using. clear E_len D_len DE ED. try clear D. try clear E. unfold aiv. rewrite app_length, !be_bytes_length. reflexivity. Qed.
 
   Lemma pad_arith m :
     (wrappingSize m - 8 - m = (8 - m mod 8) mod 8)%nat /\
     ((wrappingSize m - 8) / 8 = (m + (8 - m mod 8) mod 8) / 8)%nat /\
     (wrappingSize m = 8 + (m + (8 - m mod 8) mod 8))%nat /\
     ((m + (8 - m mod 8) mod 8) mod 8 = 0)%nat.
-  Proof.
+  Proof using. clear E_len D_len DE ED. try clear D. try clear E.
     unfold wrappingSize.
     pose proof (Nat.div_mod (m + 7) 8 ltac:(lia)).
     pose proof (Nat.mod_upper_bound (m + 7) 8 ltac:(lia)).
@@ -434,12 +434,12 @@ Section KwpThms.
     assert (Q : ((m + pad) mod 8 = 0)%nat).
     { pose proof (Nat.div_mod (m + pad) 8 ltac:(lia)).
       pose proof (Nat.mod_upper_bound (m + pad) 8 ltac:(lia)). lia. }
-    repeat split; try lia. f_equal. lia.
+    repeat split; try lia; f_equal; lia.
   Qed.
 
-  Theorem kwp_wrap_rfc5649 d : (16 <= length d <= 8192)%nat ->
+  Theorem kwp_wrap_rfc5649 d : 16 <= N.of_nat (length d) <= 8192 ->
     kwp_wrap E d = Ok (wrap_rfc5649 E d).
-  Proof.
+  Proof using E_len. clear D_len DE ED; try clear D.
     intros Hd. unfold kwp_wrap, MinWrapSize, MaxWrapSize.
     replace (N.ltb (N.of_nat (length d)) 16) with false by (symmetry; apply N.ltb_ge; lia).
     replace (N.ltb 8192 (N.of_nat (length d))) with false by (symmetry; apply N.ltb_ge; lia).
@@ -454,8 +454,8 @@ Section KwpThms.
   Qed.
 
   Theorem kwp_wrap_size_limits d :
-    ((length d < 16)%nat \/ (8192 < length d)%nat) -> kwp_wrap E d = Err.
-  Proof.
+    (N.of_nat (length d) < 16 \/ 8192 < N.of_nat (length d)) -> kwp_wrap E d = Err.
+  Proof using. clear E_len D_len DE ED. try clear D. try clear E.
     intros [H|H]; unfold kwp_wrap, MinWrapSize, MaxWrapSize.
     - replace (N.ltb (N.of_nat (length d)) 16) with true by (symmetry; apply N.ltb_lt; lia). reflexivity.
     - destruct (N.ltb (N.of_nat (length d)) 16); [reflexivity|].
@@ -467,16 +467,16 @@ Section KwpThms.
   Lemma wsN_max : wrappingSizeN MaxWrapSize = 8200. Proof. reflexivity. Qed.
 
   Lemma all_zero_zeros b : all_zero b = true <-> b = zeros (length b).
-  Proof.
+  Proof using. clear E_len D_len DE ED. try clear D. try clear E.
     induction b as [|x b IH]; cbn [all_zero length zeros repeat]; [intuition|].
     rewrite andb_true_iff, N.eqb_eq, IH. split.
     - intros [-> H]. unfold zeros in H. rewrite <- H. reflexivity.
-    - intros H. inversion H; subst. split; [reflexivity|]. unfold zeros. assumption.
+    - intros H. injection H as H0 H2. split; [assumption|]. exact H2.
   Qed.
 
   Lemma slice_mid lo hi (s : bytes) : (lo <= hi <= length s)%nat ->
     slice lo hi s = Ok (firstn (hi - lo) (skipn lo s)).
-  Proof.
+  Proof using. clear E_len D_len DE ED. try clear D. try clear E.
     intros H. unfold slice.
     replace (Nat.leb lo hi) with true by (symmetry; apply Nat.leb_le; lia).
     replace (Nat.leb hi (length s)) with true by (symmetry; apply Nat.leb_le; lia). reflexivity.
@@ -490,10 +490,10 @@ Section KwpThms.
     if negb (all_zero (skipn (8 + N.to_nat e) u)) then Err else
     Ok (firstn (N.to_nat e) (skipn 8 u)).
 
-  Lemma kwp_unwrap_eq c : (24 <= length c <= 8200)%nat -> (length c mod 8 = 0)%nat ->
+  Lemma kwp_unwrap_eq c : 24 <= N.of_nat (length c) <= 8200 -> (length c mod 8 = 0)%nat ->
     forall u, invertW D c = Ok u -> length u = length c ->
     kwp_unwrap D c = unwrap_checks u.
-  Proof.
+  Proof using. clear E_len D_len DE ED. try clear D. try clear E.
     intros Hc H8 u Hu Hl. unfold kwp_unwrap. rewrite wsN_min, wsN_max.
     replace (N.ltb (N.of_nat (length c)) 24) with false by (symmetry; apply N.ltb_ge; lia).
     replace (N.ltb 8200 (N.of_nat (length c))) with false by (symmetry; apply N.ltb_ge; lia).
@@ -510,8 +510,8 @@ Section KwpThms.
   Qed.
 
   Theorem kwp_unwrap_size_limits c :
-    ((length c < 24)%nat \/ (8200 < length c)%nat \/ (length c mod 8 <> 0)%nat) -> kwp_unwrap D c = Err.
-  Proof.
+    (N.of_nat (length c) < 24 \/ 8200 < N.of_nat (length c) \/ (length c mod 8 <> 0)%nat) -> kwp_unwrap D c = Err.
+  Proof using. clear E_len D_len DE ED. try clear D. try clear E.
     intros H. unfold kwp_unwrap. rewrite wsN_min, wsN_max.
     destruct (N.ltb (N.of_nat (length c)) 24) eqn:H1; [reflexivity|].
     destruct (N.ltb 8200 (N.of_nat (length c))) eqn:H2; [reflexivity|].
@@ -520,7 +520,7 @@ Section KwpThms.
   Qed.
 
   (* ---------- Unwrap inverts RFC 5649 wrapping ---------- *)
-  Theorem kwp_unwrap_wrap_rfc d : (9 <= length d <= 8192)%nat ->
+  Theorem kwp_unwrap_wrap_rfc d : 9 <= N.of_nat (length d) <= 8192 ->
     kwp_unwrap D (wrap_rfc5649 E d) = Ok d.
   Proof.
     intros Hd. unfold wrap_rfc5649. fold (aiv (length d)).
@@ -529,7 +529,8 @@ Section KwpThms.
     assert (Hpad : (pad < 8)%nat) by (apply Nat.mod_upper_bound; lia).
     set (P := d ++ zeros pad).
     assert (HP : length P = (length d + pad)%nat) by (unfold P; rewrite app_length, zeros_length; reflexivity).
-    pose proof (Nat.div_mod (length P) 8 ltac:(lia)) as Hdm. rewrite HP, P4 in Hdm at 2.
+    pose proof (Nat.div_mod (length P) 8 ltac:(lia)) as Hdm.
+    assert (HP4 : (length P mod 8 = 0)%nat) by (rewrite HP; exact P4).
     set (n := (length P / 8)%nat) in *.
     assert (HPn : length P = (8 * n)%nat) by lia.
     set (rs := blocks8 n P).
@@ -540,9 +541,12 @@ Section KwpThms.
     assert (HI : invertW D (W_rfc3394 E (aiv (length d)) rs) = Ok (aiv (length d) ++ P)).
     { rewrite invertW_W; auto using aiv_length; try lia.
       unfold rs. rewrite concat_blocks8 by exact HPn. reflexivity. }
-    rewrite (kwp_unwrap_eq _ ltac:(lia)
-               ltac:(rewrite HW; replace (8 + 8 * n)%nat with ((1 + n) * 8)%nat by lia; apply Nat.mod_mul; lia)
-               _ HI ltac:(rewrite app_length, aiv_length, HW; lia)).
+    set (c := W_rfc3394 E (aiv (length d)) rs) in *.
+    assert (Hc1 : 24 <= N.of_nat (length c) <= 8200) by lia.
+    assert (Hc2 : (length c mod 8 = 0)%nat)
+      by (rewrite HW; replace (8 + 8 * n)%nat with ((1 + n) * 8)%nat by lia; apply Nat.mod_mul; lia).
+    assert (Hc3 : length (aiv (length d) ++ P) = length c) by (rewrite app_length, aiv_length, HW; lia).
+    rewrite (kwp_unwrap_eq c Hc1 Hc2 _ HI Hc3).
     unfold unwrap_checks, aiv.
     rewrite <- !app_assoc.
     rewrite (firstn_app_le 4) by (rewrite be_bytes_length; lia).
@@ -569,7 +573,7 @@ Section KwpThms.
     rewrite firstn_app_le by lia. rewrite firstn_all2 by lia. reflexivity.
   Qed.
 
-  Theorem kwp_unwrap_wrap d : (16 <= length d <= 8192)%nat ->
+  Theorem kwp_unwrap_wrap d : 16 <= N.of_nat (length d) <= 8192 ->
     exists c, kwp_wrap E d = Ok c /\ kwp_unwrap D c = Ok d /\ length c = wrappingSize (length d).
   Proof.
     intros Hd. exists (wrap_rfc5649 E d). split; [apply kwp_wrap_rfc5649; exact Hd|].
@@ -584,3 +588,180 @@ Section KwpThms.
       pose proof (Nat.div_mod (length d + pad) 8 ltac:(lia)). lia.
   Qed.
 End KwpThms.
+
+(* ---------- Unwrap accepts exactly RFC 5649 wrappings ---------- *)
+Lemma wfb_concat rs : Forall wfb rs -> wfb (concat rs).
+Proof. induction 1; cbn [concat]; [constructor|]. apply wfb_app. auto. Qed.
+
+Lemma firstn_firstn_skipn {A} a b (l : list A) : firstn a l ++ firstn b (skipn a l) = firstn (a + b) l.
+Proof.
+  revert l; induction a as [|a IH]; intros l; [reflexivity|].
+  destruct l; cbn [firstn skipn Nat.add app]; [destruct b; reflexivity|]. f_equal. apply IH.
+Qed.
+
+Section KwpExact.
+  Variable E D : bytes -> bytes.
+  Hypothesis E_len : forall b, length b = 16%nat -> length (E b) = 16%nat.
+  Hypothesis D_len : forall b, length b = 16%nat -> length (D b) = 16%nat.
+  Hypothesis DE : forall b, length b = 16%nat -> D (E b) = b.
+  Hypothesis ED : forall b, length b = 16%nat -> E (D b) = b.
+  Hypothesis D_wf : forall b, wfb (D b).
+
+  Lemma unwrap_pass_wf i n : forall rs A, (wfb A \/ rs <> []) ->
+    wfb (fst (unwrap_pass D i n A rs)) /\ Forall wfb (snd (unwrap_pass D i n A rs)).
+  Proof.
+    induction rs as [|r rs IH]; intros A H.
+    - cbn. split; [|constructor]. destruct H as [H|H]; [exact H|congruence].
+    - cbn [unwrap_pass]. set (b := D _).
+      specialize (IH (firstn 8 b) (or_introl (wfb_firstn 8 b (D_wf _)))).
+      destruct (unwrap_pass D i n (firstn 8 b) rs) as [A' out]. cbn [fst snd] in *.
+      destruct IH as [I1 I2]. split; [exact I1|]. constructor; [|exact I2].
+      apply wfb_skipn. apply D_wf.
+  Qed.
+
+  Lemma unwrap_pass_length i n : forall rs A, length (snd (unwrap_pass D i n A rs)) = length rs.
+  Proof.
+    induction rs as [|r rs IH]; intros A; [reflexivity|]. cbn [unwrap_pass].
+    specialize (IH (firstn 8 (D (xor_ctr A (N.of_nat (i * n + length rs + 1)) ++ r)))).
+    destruct (unwrap_pass D i n _ rs). cbn [snd length] in *. lia.
+  Qed.
+
+  Lemma unwrap_rounds_wf n : forall k A rs, wfb A -> Forall wfb rs ->
+    wfb (fst (unwrap_rounds D k n A rs)) /\ Forall wfb (snd (unwrap_rounds D k n A rs)).
+  Proof.
+    induction k as [|k IH]; intros A rs HA Hrs; [cbn; auto|].
+    cbn [unwrap_rounds].
+    pose proof (unwrap_pass_wf k n rs A (or_introl HA)) as [W1 W2].
+    destruct (unwrap_pass D k n A rs) as [A' rs']. apply IH; assumption.
+  Qed.
+
+  Lemma unwrap_rounds_wf1 n k A rs : rs <> [] ->
+    wfb (fst (unwrap_rounds D (S k) n A rs)) /\ Forall wfb (snd (unwrap_rounds D (S k) n A rs)).
+  Proof.
+    intros H. cbn [unwrap_rounds].
+    pose proof (unwrap_pass_wf k n rs A (or_intror H)) as [W1 W2].
+    destruct (unwrap_pass D k n A rs) as [A' rs']. apply unwrap_rounds_wf; assumption.
+  Qed.
+
+  Lemma invertW_wf c u : (24 <= length c)%nat -> invertW D c = Ok u -> wfb u.
+  Proof.
+    intros Hc. unfold invertW. destruct (_ || _)%bool; [discriminate|].
+    set (n := (length c / 8 - 1)%nat).
+    assert (Hn : (2 <= n)%nat).
+    { unfold n. pose proof (Nat.div_mod (length c) 8 ltac:(lia)).
+      pose proof (Nat.mod_upper_bound (length c) 8 ltac:(lia)). lia. }
+    assert (Hne : rev (blocks8 n (skipn 8 c)) <> []).
+    { intros Hz. apply (f_equal (@length _)) in Hz. rewrite rev_length, blocks8_length in Hz. simpl in Hz. lia. }
+    pose proof (unwrap_rounds_wf1 n 5 (firstn 8 c) _ Hne) as [W1 W2].
+    unfold roundCount. destruct (unwrap_rounds D 6 n (firstn 8 c) _) as [A rs]. cbn [fst snd] in *.
+    intros Hu. inversion Hu; subst. apply wfb_app. split; [exact W1|].
+    apply wfb_concat. apply Forall_rev. exact W2.
+  Qed.
+
+  Lemma be4_of_val p : wfb p -> length p = 4%nat -> p = be_bytes 4 (be_val p).
+  Proof. intros W L. rewrite <- L. symmetry. apply be_bytes_be_val. exact W. Qed.
+
+  Lemma be_val_lt4 p : wfb p -> length p = 4%nat -> be_val p < 2 ^ 32.
+  Proof.
+    intros W L. rewrite be_val_bev. pose proof (bev_lt p W) as H. rewrite L in H. exact H.
+  Qed.
+
+  Theorem kwp_unwrap_only_wrappings c d : kwp_unwrap D c = Ok d ->
+    9 <= N.of_nat (length d) <= 8192 /\ c = wrap_rfc5649 E d.
+  Proof.
+    intros H.
+    destruct (N.lt_ge_cases (N.of_nat (length c)) 24) as [C1|C1];
+      [rewrite (kwp_unwrap_size_limits D) in H by (left; exact C1); discriminate|].
+    destruct (N.lt_ge_cases 8200 (N.of_nat (length c))) as [C2|C2];
+      [rewrite (kwp_unwrap_size_limits D) in H by (right; left; exact C2); discriminate|].
+    destruct (Nat.eq_dec (length c mod 8) 0) as [C3|C3];
+      [|rewrite (kwp_unwrap_size_limits D) in H by (right; right; exact C3); discriminate].
+    pose proof (Nat.div_mod (length c) 8 ltac:(lia)) as Hdm.
+    destruct (invertW_inv E D E_len D_len DE ED c ltac:(lia) C3 ltac:(lia))
+      as [A [rs [HI [HA [Hrs [Hn HW]]]]]].
+    set (u := A ++ concat rs) in *.
+    assert (Hu : length u = length c)
+      by (unfold u; rewrite app_length, concat_length_blocks by assumption; unfold bytes in *; lia).
+    assert (Wu : wfb u) by (apply (invertW_wf c u); [lia|exact HI]).
+    rewrite (kwp_unwrap_eq D c ltac:(lia) C3 u HI Hu) in H.
+    unfold unwrap_checks in H.
+    destruct (negb (N.eqb (be_val (firstn 4 u)) ivPrefix)) eqn:K1; [discriminate|].
+    destruct (negb (N.eqb (wrappingSizeN _) _)) eqn:K2; [discriminate|].
+    destruct (negb (all_zero _)) eqn:K3; [discriminate|].
+    apply negb_false_iff, N.eqb_eq in K1. apply negb_false_iff, N.eqb_eq in K2.
+    apply negb_false_iff in K3.
+    set (l4 := firstn 4 (skipn 4 u)) in *.
+    assert (L1 : length (firstn 4 u) = 4%nat) by (rewrite firstn_length; lia).
+    assert (L2 : length l4 = 4%nat) by (unfold l4; rewrite firstn_length, skipn_length; lia).
+    pose proof (be4_of_val _ (wfb_firstn 4 u Wu) L1) as Q1. rewrite K1 in Q1.
+    pose proof (be4_of_val l4 (wfb_firstn 4 _ (wfb_skipn 4 u Wu)) L2) as Q2.
+    pose proof (be_val_lt4 l4 (wfb_firstn 4 _ (wfb_skipn 4 u Wu)) L2) as Q3.
+    set (e := N.to_nat (be_val l4)) in *.
+    assert (He : be_val l4 = N.of_nat e) by (unfold e; lia).
+    rewrite He in K2, Q2. rewrite wrappingSizeN_nat in K2.
+    assert (Hws : wrappingSize e = length u) by lia.
+    destruct (pad_arith e) as [P1 [P2 [P3 P4]]].
+    set (pad := ((8 - e mod 8) mod 8)%nat) in *.
+    assert (Hd : firstn e (skipn 8 u) = d) by congruence.
+    assert (Hdl : length d = e) by (rewrite <- Hd, firstn_length, skipn_length; lia).
+    (* the decomposition of u *)
+    apply all_zero_zeros in K3. rewrite skipn_length in K3.
+    replace (length u - (8 + e))%nat with pad in K3 by lia.
+    assert (Hsk : skipn 8 u = d ++ zeros pad).
+    { rewrite <- (firstn_skipn e (skipn 8 u)). rewrite Hd. f_equal.
+      rewrite skipn_skipn_add. replace (8 + e)%nat with (8 + e)%nat by lia. exact K3. }
+    assert (Hf8 : firstn 8 u = aiv (length d)).
+    { change 8%nat with (4 + 4)%nat. rewrite <- firstn_firstn_skipn. fold l4.
+      rewrite Q1 at 1. rewrite Q2 at 1. unfold aiv. rewrite Hdl. reflexivity. }
+    assert (HAu : A = firstn 8 u) by (unfold u; rewrite firstn_app_le, firstn_all2 by lia; reflexivity).
+    assert (Hcu : concat rs = skipn 8 u)
+      by (unfold u; rewrite skipn_app_le, skipn_all2 by lia; reflexivity).
+    split.
+    - pose proof (wrappingSize_formula e) as F.
+      pose proof (Nat.div_mod (e + 7) 8 ltac:(lia)).
+      pose proof (Nat.mod_upper_bound (e + 7) 8 ltac:(lia)). lia.
+    - assert (HA' : A = aiv (length d)) by congruence.
+      assert (Hc' : concat rs = d ++ zeros pad) by congruence.
+      rewrite <- HW. unfold wrap_rfc5649. fold (aiv (length d)). rewrite <- HA'.
+      replace ((8 - length d mod 8) mod 8)%nat with pad by (unfold pad; rewrite Hdl; reflexivity).
+      rewrite <- Hc'.
+      rewrite concat_length_blocks by assumption.
+      rewrite (Nat.mul_comm 8), Nat.div_mul by lia.
+      rewrite blocks8_concat by assumption. reflexivity.
+  Qed.
+
+  Theorem kwp_unwrap_exact c d :
+    kwp_unwrap D c = Ok d <-> (9 <= N.of_nat (length d) <= 8192 /\ c = wrap_rfc5649 E d).
+  Proof.
+    split; [apply kwp_unwrap_only_wrappings|].
+    intros [Hd ->]. apply (kwp_unwrap_wrap_rfc E D); assumption.
+  Qed.
+
+  Theorem kwp_exact_acceptance c d : 16 <= N.of_nat (length d) ->
+    (kwp_unwrap D c = Ok d <-> kwp_wrap E d = Ok c).
+  Proof.
+    intros H16. rewrite kwp_unwrap_exact. split.
+    - intros [Hd ->]. apply (kwp_wrap_rfc5649 E E_len). lia.
+    - intros Hw. destruct (N.lt_ge_cases 8192 (N.of_nat (length d))) as [C|C].
+      + rewrite (kwp_wrap_size_limits E) in Hw by (right; exact C). discriminate.
+      + rewrite (kwp_wrap_rfc5649 E E_len) in Hw by lia. inversion Hw. split; [lia|reflexivity].
+  Qed.
+
+  Theorem kwp_unwrap_no_panic c : kwp_unwrap D c <> Panic.
+  Proof.
+    destruct (N.lt_ge_cases (N.of_nat (length c)) 24) as [C1|C1];
+      [rewrite (kwp_unwrap_size_limits D) by (left; exact C1); discriminate|].
+    destruct (N.lt_ge_cases 8200 (N.of_nat (length c))) as [C2|C2];
+      [rewrite (kwp_unwrap_size_limits D) by (right; left; exact C2); discriminate|].
+    destruct (Nat.eq_dec (length c mod 8) 0) as [C3|C3];
+      [|rewrite (kwp_unwrap_size_limits D) by (right; right; exact C3); discriminate].
+    pose proof (Nat.div_mod (length c) 8 ltac:(lia)) as Hdm.
+    destruct (invertW_inv E D E_len D_len DE ED c ltac:(lia) C3 ltac:(lia))
+      as [A [rs [HI [HA [Hrs [Hn HW]]]]]].
+    rewrite (kwp_unwrap_eq D c ltac:(lia) C3 _ HI
+               ltac:(rewrite app_length, concat_length_blocks by assumption; unfold bytes in *; lia)).
+    unfold unwrap_checks.
+    destruct (negb _); [discriminate|]. destruct (negb _); [discriminate|].
+    destruct (negb _); discriminate.
+  Qed.
+End KwpExact.
